@@ -379,6 +379,15 @@ fn src_name(ii: usize, i: usize) -> String {
     shapes[(ii + i) % shapes.len()].replacen("{}", &ii.to_string(), 1).replacen("{}", &i.to_string(), 1)
 }
 
+/// the environment a build script or `cargo run` gives the compiler: CARGO names cargo's executable. The path is one
+/// next to which no rustfmt exists, so the bindings stay unformatted as in the harness's own process
+fn run_child_under_cargo(cmd: &mut Command) -> (i32, Vec<u8>, String) {
+    match cmd.env("CARGO", "/nonexistent-cargo-home/bin/cargo").env("CARGO_MANIFEST_DIR", "/nonexistent-cargo-home/pkg").env("OUT_DIR", "/nonexistent-cargo-home/out").env_remove("CARGO_HOME").output() {
+        Ok(o) => (o.status.code().unwrap_or(-1), o.stdout, String::from_utf8_lossy(&o.stderr).to_string()),
+        Err(e) => (-2, vec![], e.to_string()),
+    }
+}
+
 fn run_child(cmd: &mut Command) -> (i32, Vec<u8>, String) {
     match cmd.env_remove("CARGO").env_remove("CARGO_HOME").output() {
         Ok(o) => (o.status.code().unwrap_or(-1), o.stdout, String::from_utf8_lossy(&o.stderr).to_string()),
@@ -413,10 +422,15 @@ fn children(cfg: &RunCfg, rep: &mut Report, work: &Path, inputs: &[(Vec<String>,
                 c.arg("--ts");
             }
             c.args(&paths);
-            let (code, out, _) = run_child(&mut c);
+            // every other input: the child runs as cargo runs a build script (CARGO set)
+            let under_cargo = ii % 2 == 1;
+            if under_cargo {
+                c.arg("--under-cargo");
+            }
+            let (code, out, _) = if under_cargo { run_child_under_cargo(&mut c) } else { run_child(&mut c) };
             rep.evaluations += 1;
-            rep.count("child:library-stdout");
-            let what = json!({"kind": "library-stdout", "sources": texts, "typescript": ts});
+            rep.count(if under_cargo { "child:library-stdout:under-cargo" } else { "child:library-stdout" });
+            let what = json!({"kind": "library-stdout", "sources": texts, "typescript": ts, "under_cargo": under_cargo});
             match &expected {
                 Some(t) => {
                     if code != 0 || out != t.as_bytes() {
@@ -484,11 +498,12 @@ fn children(cfg: &RunCfg, rep: &mut Report, work: &Path, inputs: &[(Vec<String>,
                     _ => Some(dest.join(format!("generated.{ext}"))),
                 };
                 let before = snapshot(&dest);
-                let (code, out, err) = run_child(&mut c);
+                // every other input: the CLI is started as `cargo run` starts it (CARGO set)
+                let (code, out, err) = if ii % 2 == 0 { run_child_under_cargo(&mut c) } else { run_child(&mut c) };
                 let after = snapshot(&dest);
                 rep.evaluations += 1;
                 rep.count(&format!("child:cli-m:{}", ["stdout", "no-output", "o-file", "o-dir", "default", "missing-parent"][variant]));
-                let what = json!({"kind": "cli", "sources": texts, "typescript": ts, "variant": variant});
+                let what = json!({"kind": "cli", "sources": texts, "typescript": ts, "variant": variant, "under_cargo": ii % 2 == 0});
                 let mut want = before.clone();
                 let mut want_out: Vec<u8> = vec![];
                 if let Some(t) = &expected {
